@@ -192,8 +192,8 @@ func (b *build) makeLeftover(wl E3Workload, root string) (string, error) {
 	if err != nil || !killed {
 		return "", fmt.Errorf("leftover child was not killed at its rename (%v)", err)
 	}
-	if len(listFailFiles(dir)) != 0 || len(listAllFiles(dir)) == 0 {
-		return "", fmt.Errorf("leftover state unexpected: %v", listAllFiles(dir))
+	if len(listAllFiles(dir)) == 0 {
+		return "", fmt.Errorf("leftover state unexpected: nothing left behind by the killed save")
 	}
 	return dir, nil
 }
@@ -279,6 +279,12 @@ func (b *build) e3RunWorkload(wl E3Workload, root string, only int) *e3Result {
 		return res
 	}
 	refFiles := listFailFiles(base)
+	if leftover != "" && len(refFiles) > 1 {
+		// the killed earlier save left something behind under a fail-file name
+		res.Viols = append(res.Viols, e3Violation{Rule: "C16.J1", Sig: "partial-file-under-fail-name", Workload: wl, Point: 0,
+			Msg: fmt.Sprintf("an earlier save of this test was killed before its rename and left a file under a fail-file name; after the next save the directory holds %d *.fail files: %v", len(refFiles), listAllFiles(base))})
+		return res
+	}
 	if len(refFiles) != 1 {
 		// no file saved by an uninterrupted run: C06's business; nothing to compare crash states with
 		res.Harness = fmt.Sprintf("baseline saved %d fail files (%v); calls=%d", len(refFiles), listAllFiles(base), len(calls))
